@@ -355,6 +355,40 @@ func init() {
 		c.evmgr = a[1]
 		return mkCtx(&c)
 	})
+	// CacheContext: a branch of the context (copy-on-write stores, its own parameter view and a
+	// FRESH event manager, as in this SDK fork) and a function that writes the branch's stores back
+	boundIntrinsics["ctxwrite"] = func(p *Path, recv Value, a []Value) Value {
+		pair := recv.(TupleV)
+		parent, child := pair[0].(OpaqueV).data.(*CtxObj), pair[1].(OpaqueV).data.(*CtxObj)
+		for k, s := range child.stores {
+			if ps := parent.stores[k]; ps != nil {
+				*ps = *s // the parent's store object is shared with every context derived from it
+			}
+		}
+		for k, v := range child.params {
+			parent.params[k] = v
+		}
+		return nil
+	}
+	reg(C+"CacheContext", func(p *Path, fn *ssa.Function, a []Value) Value {
+		parent := ctxOf(p, a[0])
+		c := *parent
+		ns := map[*Cell]*StoreObj{}
+		for k, s := range c.stores {
+			cp := *s
+			cp.entries = append([]storeEntry{}, s.entries...)
+			ns[k] = &cp
+		}
+		c.stores = ns
+		np := map[string]Value{}
+		for k, v := range c.params {
+			np[k] = v
+		}
+		c.params = np
+		c.evmgr = p.callFunction(p.sdkFunc("NewEventManager"), nil, nil, nil)
+		child := mkCtx(&c)
+		return TupleV{child, FuncV{intr: "ctxwrite", recv: TupleV{mkCtx(parent), child}}}
+	})
 	reg(C+"IsCheckTx", func(p *Path, fn *ssa.Function, a []Value) Value { return tFalse })
 	reg(C+"IsReCheckTx", func(p *Path, fn *ssa.Function, a []Value) Value { return tFalse })
 	reg(C+"Context", func(p *Path, fn *ssa.Function, a []Value) Value {
